@@ -13,7 +13,7 @@ import (
 
 func init() { register("C15", "exploration", c15Main, c15Replay) }
 
-var c15Alpha = []string{";", "'", "\"", "`", "\\", "/", "\n", "a", "0", ".", "e", "x", " ", "!", "=", "é", "\xff", "\r", "\ufeff"}
+var c15Alpha = []string{";", "'", "\"", "`", "\\", "/", "\n", "a", "0", ".", "e", "x", " ", "!", "=", "é", "\xff", "\r", "\ufeff", "\f"}
 
 // hand-written corpus used for the "semicolon at every byte offset" sweep until
 // the grammar corpus is linked in (c15Corpus is extended by gen-based programs).
@@ -82,6 +82,17 @@ func c15Main(r *run.Runner) {
 			}
 		}
 		c15One(w, p)
+		// the same program inside a long source (sizes around 512, 1024 and 4096 bytes), padded before and after
+		for _, size := range []int{500, 512, 600, 1024, 1100, 4096, 4200} {
+			if len(p) >= size {
+				continue
+			}
+			pad := strings.Repeat("x", size-len(p))
+			c15One(w, "// "+pad+"\n"+p)
+			c15One(w, p+"\n// "+pad)
+			c15One(w, p+" | where z == '"+pad+"'; U")
+			c15One(w, "\f"+p+"\v;é")
+		}
 	})
 	if r.Thorough() {
 		r.Sweep("pairs", int64(len(corpus)*len(corpus)), func(w *run.Worker, item int64) {
